@@ -162,7 +162,7 @@ func (r *prec) run(th int, prog string, withNew bool) {
 			r.minted++
 			r.p.Put(&tok{id: 100 + 10*th + r.minted})
 		case 'Y':
-			vrt.Yield("h.holding", uintptr(unsafe.Pointer(r)), false)
+			vrt.Yield("h.holding", unsafe.Pointer(r), false)
 		}
 	}
 }
